@@ -199,6 +199,10 @@ def describe(case, mo):
 
 
 def classify(case, io, mo):
+    if case.get("expect_ok"):
+        # regression corpus: recorded as handled correctly by the unchanged tree under hash seeds 0-3
+        # (tools/okcorpus.py); a failure now is a regression whatever its shape
+        return None
     if case["enum"] == "cd" and mo is not None and mo["sorted"] == 0 and mo["costs_ok"] == 1 \
             and mo.get("worst_inversion_units", 10 ** 18) <= mo.get("cd_cell_bound_units", 0):
         return "c03_cd_order_inversions"
